@@ -388,7 +388,14 @@ Family(stage) ==
 
 (* admissible exception classes for a cell; a value of the documented type *)
 (* is always admissible (the statement does not oblige pywbem to reject)   *)
-AdmissibleErrors(defs) == UNION {Family(StageOf(d)) : d \in defs}
+(* two byte-level transformations do not commute (re-encoding a document   *)
+(* that already holds ill-formed bytes changes its text): their            *)
+(* composition is just some byte mutation, i.e. of class "fuzz"            *)
+ByteStages == {"utf8", "xml"}
+AdmissibleErrors(defs) ==
+  UNION {Family(StageOf(d)) : d \in defs} \cup
+  (IF Cardinality({d \in defs : StageOf(d) \in ByteStages}) >= 2
+   THEN Family("fuzz") ELSE {})
 
 (* ------------------------------ events --------------------------------- *)
 (* e = [op, shape, defects (sequence of defect records), kind ("value" |  *)
